@@ -1436,9 +1436,8 @@ func opcodeLShift(op *ParsedOpcode, t *thread) error {
 	if err != nil {
 		return err
 	}
-	n := num.Int()
 
-	if n < 0 {
+	if num.LessThanInt(0) {
 		return errs.NewError(errs.ErrNumberTooSmall, "n less than 0")
 	}
 
@@ -1447,24 +1446,23 @@ func opcodeLShift(op *ParsedOpcode, t *thread) error {
 		return err
 	}
 
-	l := len(x)
-	for i := 0; i < l-1; i++ {
-		x[i] = x[i]<<n | x[i+1]>>(8-n)
-	}
-	x[l-1] <<= n
-
-	t.dstack.PushByteArray(x)
+	t.dstack.PushByteArray(shiftBits(x, num, true))
 	return nil
 }
 
+// opcodeRShift pops the first item off the stack as an int and the second as a
+// byte array, shifts the bits of the array right by that many places (the array
+// is treated as a big-endian bit string and keeps its length) and pushes the
+// result back to the stack.
+//
+// Stack transformation: [... x1 x2] -> [... x1 >> x2]
 func opcodeRShift(op *ParsedOpcode, t *thread) error {
 	num, err := t.dstack.PopInt()
 	if err != nil {
 		return err
 	}
-	n := num.Int()
 
-	if n < 0 {
+	if num.LessThanInt(0) {
 		return errs.NewError(errs.ErrNumberTooSmall, "n less than 0")
 	}
 
@@ -1473,14 +1471,48 @@ func opcodeRShift(op *ParsedOpcode, t *thread) error {
 		return err
 	}
 
-	l := len(x)
-	for i := l - 1; i > 0; i-- {
-		x[i] = x[i]>>n | x[i-1]<<(8-n)
-	}
-	x[0] >>= n
-
-	t.dstack.PushByteArray(x)
+	t.dstack.PushByteArray(shiftBits(x, num, false))
 	return nil
+}
+
+// shiftBits returns a new slice holding x shifted by n bits to the left or to
+// the right. x is treated as a big-endian bit string, the result has the same
+// length as x and a shift of len(x)*8 or more bits yields all zeros. x itself
+// is never written to, as it may be shared with other stack items or with the
+// script being executed.
+func shiftBits(x []byte, n *scriptNumber, left bool) []byte {
+	l := len(x)
+	out := make([]byte, l)
+	if !n.LessThanInt(int64(l) * 8) {
+		return out
+	}
+
+	shift := n.Int()
+	byteShift, bitShift := shift/8, uint(shift%8)
+	for i := 0; i < l; i++ {
+		if left {
+			src := i + byteShift
+			if src >= l {
+				break
+			}
+			out[i] = x[src] << bitShift
+			if bitShift > 0 && src+1 < l {
+				out[i] |= x[src+1] >> (8 - bitShift)
+			}
+			continue
+		}
+
+		src := i - byteShift
+		if src < 0 {
+			continue
+		}
+		out[i] = x[src] >> bitShift
+		if bitShift > 0 && src > 0 {
+			out[i] |= x[src-1] << (8 - bitShift)
+		}
+	}
+
+	return out
 }
 
 // opcodeBoolAnd treats the top two items on the data stack as integers.  When
